@@ -24,9 +24,9 @@ OPS = ['bool', 'oracles', 'counts', 'table', 'fulltable', 'plot', 'full', 'rst',
 BOUNDS = {'quick': {'kinds': KINDS, 'datasets': '1-d 3 bins (1 or 2 compared datasets, named or anonymous); 2-d (2,2) for Student',
                     'failing pattern': 'every subset of bins (solver-chosen)', 'operations': 'sequences of 2 out of ' + ', '.join(OPS),
                     'verbosity': 'all 6 levels'},
-          'thorough': {'kinds': KINDS, 'datasets': 'as quick + scalar and 2-d with 2 compared datasets',
+          'thorough': {'kinds': KINDS, 'datasets': 'as quick + scalar and 2-d with 2 compared datasets (single operations for the latter)',
                        'operations': 'sequences of 2 at all 6 verbosity levels; sequences of 3 at the lowest / highest verbosity (1-d, one dataset)'}}
-ASSUMPTIONS = ['cell values are concrete distinct numbers; the failing pattern, result kind, verbosities and operation sequence are solver-chosen',
+ASSUMPTIONS = ['cell values are concrete distinct numbers, optionally (solver-chosen, 1-d single-dataset jobs) NaN in the first failing bin; the failing pattern, result kind, verbosities and operation sequence are solver-chosen',
                'plot representation = plot templates only (no matplotlib rendering)',
                'pickle / deepcopy act on concrete values (C boundary)',
                'the baseline snapshot is taken after one call of the cheap observers (bool, oracles, counts), so memoisation attributes may exist']
@@ -78,7 +78,7 @@ def apply_op(ex, res, op, step, few_verbs=False):
 
 def make_harness(kind, shape, nds, named, nops, few_verbs=False):
     def harness(ex):
-        res, info = build_result(ex, kind, shape, nds, named)
+        res, info = build_result(ex, kind, shape, nds, named, with_nan=(shape == '1d' and nds == 1))
         # determinism / repeatability of evaluation
         if hasattr(res.test, 'evaluate') and kind not in ('failed', 'stats_tests', 'stats_bylabels'):
             again = res.test.evaluate()
@@ -109,11 +109,11 @@ def jobs(tier):
             if kind == 'student':
                 combos.append(('2d', 1, True))
             if tier == 'thorough':
-                combos += [('scalar', 1, True), ('2d', 2, False)]
+                combos += [('scalar', 1, True), ('2d', 2, False)]      # ('2d', 2): one operation only, see below
         else:
             combos = [('1d', 1, True)]
         for shape, nds, named in combos:
-            n_ops = nops if not (tier == 'quick' and nds == 2) else 1
+            n_ops = nops if not ((tier == 'quick' and nds == 2) or (shape == '2d' and nds == 2)) else 1
             out.append((f'{kind}-{shape}-n{nds}-{"named" if named else "anon"}-ops{n_ops}', _job,
                         dict(kind=kind, shape=shape, nds=nds, named=named, nops=n_ops, timeout_ms=20000)))
         if tier == 'thorough':
